@@ -13,11 +13,97 @@ TRUSTED = [
 ]
 ASSUMPTIONS = ["C12_refines: no cursor shape is being composited (no-cursor option, or no cursor rectangle received); with a local cursor painting the pointer into the screen is the feature - that case is covered by the model correspondence only",
                "pixel data has the announced length (the RFB layer guarantees it: C02)"]
-RULE = ("histories of 1..25 callbacks: updateRectangle at and away from the origin, partly/entirely beyond the current image, overlapping, zero-area; "
-        "updateDesktopSize up and down; updateCursor under each of {default, pseudocursor, nocursor} with pointer moves; in each of the five image modes; "
-        "non-trivial = distinct history with >= 3 callbacks of which one grows or resizes the screen")
+RULE = ("(a) histories of 1..25 callbacks: updateRectangle at and away from the origin, partly/entirely beyond the current image, overlapping, zero-area; "
+        "updateDesktopSize up and down; updateCursor under each of {default, pseudocursor, nocursor, nocursor+pseudocursor} with pointer moves; in each of the five image modes; "
+        "(b) wire sessions: ServerInit + 1..6 updates of 1..3 rectangles (raw/RRE/hextile/ZRLE/CopyRect/cursor) with desktop-size rectangles that announce the current size, the image's size, or a new one; "
+        "non-trivial = distinct history with >= 3 callbacks of which one grows or resizes the screen, or wire session with a desktop-size rectangle")
 
 MODES = {m: pf for pf, m in vclient.PF2IM.items()}
+
+
+def wire_sessions(ctx):
+    """the same property end to end: bytes of a conforming server through the real decoder into the screen.  Emphasis on
+    desktop-size changes: announcing the size the desktop already has (after a partial or an over-grown image), up, down."""
+    r = ctx.rng
+    meta, lines = [], []
+    oldlim = limit_memory(8 << 30)
+    for si in range(ctx.n(60, 600)):
+        pf = r.choice(ACCEPTED_PF)
+        w0, h0 = r.choice([1, 8, 16, 40]), r.choice([1, 8, 16, 40])
+        opts = {"nocursor": True, "pseudodesktop": True}
+        if r.random() < .4:
+            opts["pseudocursor"] = True
+        c, trace, zlog = new_client("lib", **opts)
+        hs = b"RFB 003.008\n" + bytes([1, 1]) + struct.pack("!I", 0) + server_init(w0, h0, pf, b"d")
+        chunks = [hs]
+        feed_impl(c, trace, [hs])
+        sess = Session(pf)
+        ref = Canvas()
+        announced = (w0, h0)
+        screens = []
+        history = []
+        bad = False
+        for ui in range(r.randint(1, 6)):
+            rects = []
+            for _ in range(r.choice([1, 1, 2, 3])):
+                j = r.random()
+                if j < .35:
+                    k = r.random()
+                    if k < .45:
+                        w, h = announced                         # the size the desktop already has
+                    elif k < .6 and ref.w is not None:
+                        w, h = ref.w, ref.h                      # the size of the client's (possibly over-grown) image
+                    else:
+                        w, h = r.choice([1, 8, 16, 40, 60]), r.choice([1, 8, 16, 40, 60])
+                    rects.append(enc_desktop(w, h))
+                    announced = (w, h)
+                elif j < .45:
+                    rects.append(rand_rect(r, pf, ["cursor"], maxarea=200, maxpos=20))
+                else:
+                    rects.append(rand_rect(r, pf, ["raw", "raw", "rre", "hextile", "zrle", "copyrect"], maxarea=900, maxpos=r.choice([1, 10, 50])))
+            msg = sess.update(rects, False, r=r)
+            parts = [msg]
+            if r.random() < .4 and len(msg) > 2:
+                cs = sorted(r.sample(range(1, len(msg)), min(2, len(msg) - 1)))
+                parts = [msg[a:b] for a, b in zip([0] + cs, cs + [len(msg)])]
+            per = feed_impl(c, trace, parts)
+            chunks += parts
+            history.append([(rc.kind, rc.x, rc.y, rc.w, rc.h) for rc in rects])
+            for rc in rects:
+                ctx.count("wire_" + rc.kind)
+                if rc.kind == "desktop":
+                    ref.resize(rc.w, rc.h)
+                for (x, y, w, h, px) in rc.paint:
+                    ref.paint(x, y, w, h, px, pf)
+            got, want = screen_rgb(c), ref.rgb()
+            inp = {"pixel_format": vclient.PF2IM.get(pf), "options": opts, "server_init": [w0, h0], "updates": history, "stream": hx(b"".join(chunks))}
+            ctx.case({"updates": history, "screen": got and list(got[:2])} if len(ctx.samples) < 4 and len(history) >= 2 else None,
+                     key=("wire", si, ui) if any(k[0] == "desktop" for u in history for k in u) else None)
+            if got != want:
+                what = "size %r, composition has %r" % (got and got[:2], want and want[:2])
+                if got and want and got[:2] == want[:2]:
+                    i = next(i for i in range(0, len(got[2]), 3) if got[2][i:i + 3] != want[2][i:i + 3]) // 3
+                    what = "pixel (%d,%d): screen %r, composition %r" % (i % got[0], i // got[0], tuple(got[2][3 * i:3 * i + 3]), tuple(want[2][3 * i:3 * i + 3]))
+                ctx.violate("composition-wire", {"input": inp, "observed": what,
+                                                 "how": "a conforming server's bytes through the real VNCDoToolClient (no-cursor option); screen vs the reference canvas (latest write wins, never-sent pixels black, exactly the announced size after a desktop-size rectangle)"})
+                bad = True
+                break
+            screens.append((len(chunks), "none" if got is None else "%d %d %d" % (got[0], got[1], fnv64(got[2]))))
+        if bad:
+            continue
+        ml = model_lines("lib", opts, zlog, [])
+        ci = 0
+        want_screens = []
+        for upto, stok in screens:
+            for ch in chunks[ci:upto]:
+                ml.append("rfb-recv " + hx(ch))
+            ci = upto
+            ml.append("rfb-screen")
+            want_screens.append((len(ml) - 1, stok))
+        meta.append((len(lines), want_screens, {"pixel_format": vclient.PF2IM.get(pf), "options": opts, "stream": hx(b"".join(chunks))}))
+        lines += ml
+    unlimit_memory(oldlim)
+    return meta, lines
 
 
 def run(ctx):
@@ -27,13 +113,13 @@ def run(ctx):
     for hi in range(n):
         mode = r.choice(list(MODES))
         pf = MODES[mode]
-        curs = r.choice(["default", "default", "nocursor", "pseudocursor"])
-        c, trace, _ = new_client("lib", nocursor=(curs == "nocursor"), pseudocursor=(curs == "pseudocursor"))
+        curs = r.choice(["default", "default", "nocursor", "pseudocursor", "nocursor+pseudocursor"])
+        c, trace, _ = new_client("lib", nocursor=("nocursor" in curs), pseudocursor=("pseudocursor" in curs))
         c.image_mode = mode
         ref = Canvas()
         ops = []
         has_cursor = False
-        ml = ["cv-new %d %s" % (curs == "nocursor", mode.encode().hex())]
+        ml = ["cv-new %d %s" % ("nocursor" in curs, mode.encode().hex())]
         for _ in range(r.randint(1, 25)):
             k = r.random()
             if k < .7:
@@ -78,7 +164,7 @@ def run(ctx):
         for o in ops:
             ctx.count("op_" + o[0])
         # the property: exact composition (when no cursor shape is composited)
-        if not has_cursor or curs == "nocursor":
+        if not has_cursor or "nocursor" in curs:
             want = ref.rgb()
             if got != want:
                 what = "size %r vs %r" % (got and got[:2], want and want[:2])
@@ -89,8 +175,15 @@ def run(ctx):
                                             "observed": what, "how": "callbacks on a real VNCDoToolClient vs the reference canvas (latest write wins, never-sent pixels black)"})
         meta.append((len(lines), len(ml), gtok, mode, curs, ops, ml))
         lines += ml
-    mout = ctx.drive(lines)
+    wire_meta, wire_lines = wire_sessions(ctx)
+    mout = ctx.drive(lines + wire_lines)
     if mout is not None:
+        base = len(lines)
+        for off, screens, inp in wire_meta:
+            for idx, stok in screens:
+                if mout[base + off + idx] != stok:
+                    ctx.disagree("model-vs-client-screen-wire", {"input": inp, "impl": stok, "model": mout[base + off + idx]})
+                    break
         for off, k, gtok, mode, curs, ops, ml in meta:
             if mout[off + k - 1] != gtok:
                 ctx.disagree("model-vs-client-screen", {"input": {"mode": mode, "cursor_option": curs, "ops": [list(o) for o in ops], "model_lines": ml},
